@@ -30,6 +30,9 @@ def arg_record(name):
     raise KeyError(name)
 
 
+KWDFLT = object()
+
+
 class ValueWorld:
     def __init__(self):
         self.classes = [None, object, int, str]
@@ -115,9 +118,19 @@ class ValueWorld:
             for i, t in enumerate(m["pos"]):
                 ns[f"T_{m['id']}_{i}"] = self.real_type(t)
                 params.append(f"p{i + 1}: T_{m['id']}_{i}")
+            if m.get("kwn"):
+                params.append("*")
+            for j, kn in enumerate(m.get("kwn", [])):
+                ns[f"T_{m['id']}_k{j}"] = self.real_type(m["kwt"][j])
+                d = "" if m["kwreq"][j] else " = KWDFLT"
+                params.append(f"{kn}: T_{m['id']}_k{j}{d}")
+            ns["KWDFLT"] = KWDFLT
             names = ", ".join(f"p{i + 1}" for i in range(len(m["pos"])))
-            body = f"    LOG.append(({m['id']!r}, [{names}]))\n"
-            body += f"    return call_next({names})\n" if m.get("body") == "next" else f"    return {m['id']!r}\n"
+            kwd = ", ".join(f"{kn!r}: {kn}" for kn in m.get("kwn", []))
+            kwpass = ", ".join(f"{kn}={kn}" for kn in m.get("kwn", []))
+            body = f"    LOG.append(({m['id']!r}, [{names}], {{{kwd}}}))\n"
+            allargs = ", ".join(x for x in (names, kwpass) if x)
+            body += f"    return call_next({allargs})\n" if m.get("body") == "next" else f"    return {m['id']!r}\n"
             src.append(f"def {m['id']}({', '.join(params)}):\n{body}")
         code = "\n".join(src)
         fname = f"<vf:dep{id(self)}-{len(linecache.cache)}>"
